@@ -1,4 +1,4 @@
-"""C19 -- pattern matching and restructuring (clauses R19.1-R19.7)."""
+"""C19 -- pattern matching and restructuring (clauses R19.1-R19.8)."""
 from __future__ import annotations
 
 import ast
@@ -121,6 +121,7 @@ def check(ctx, res) -> None:
     _wildcard_node_rule(ctx, res)
     _suite_owner_rule(ctx, res)
     _pure_filter_rule(ctx, res)
+    _paren_preserving_rule(ctx, res)
 
 
 def _check_main(ctx, res) -> None:
@@ -389,3 +390,31 @@ def _pure_filter_rule(ctx, res) -> None:
                 f"get_matches leaves the loop over the collected matches early (`{ast.unparse(cut[0])}` at line {cut[0].lineno}): the matches are in AST-walk "
                 "order, not source order, so instances inside the requested region that come later in the list are not reported",
                 function=gm.qualname)
+
+
+def _paren_preserving_rule(ctx, res) -> None:
+    """R19.8: "the bound code is inserted so that it keeps its meaning".  Regions of the patched AST exclude the
+    parentheses an expression is written in, so the text bound to a wildcard must pass through a step that can restore
+    them before it is substituted into the goal: what is stored into the substitution mapping is the result of a helper
+    whose body produces '(' and ')' around its argument -- never the bare node text."""
+    idx = ctx.idx
+    f = idx.need_func("rope.refactor.restructure._ChangeComputer._get_matched_text")
+    stores = [x for x in walk_local(f.node) if isinstance(x, ast.Assign) and any(isinstance(t, ast.Subscript) for t in x.targets)
+              and any(isinstance(c, ast.Call) and call_name(c) == "_get_node_text" for c in ast.walk(x.value))]
+    if not stores:
+        raise AnalysisError("anchor=_ChangeComputer._get_matched_text: store of the bound text into the mapping not found")
+
+    def restores_parens(fn) -> bool:
+        consts = {y.value for y in ast.walk(fn.node) if isinstance(y, ast.Constant) and isinstance(y.value, str)}
+        return "(" in consts and ")" in consts
+
+    for k, st in enumerate(stores, 1):
+        v = st.value
+        ok = False
+        if isinstance(v, ast.Call) and call_name(v) != "_get_node_text" and is_self_attr(v.func) and f.cls is not None:
+            h = idx.find_method(f.cls.qualname, v.func.attr)
+            ok = h is not None and restores_parens(h)
+        res.add("R19.8", f"_get_matched_text|bound-text#{k}", ok, f"{f.unit.rel}:{st.lineno}",
+                "the bound text passes through a parenthesis-restoring step before substitution" if ok else
+                "the text bound to a wildcard is substituted into the goal as the bare node region: `(a + b) * c` restructured with `${x} * ${y}` -> "
+                "`${y} * ${x}` becomes `c * a + b` (the region of `a + b` does not contain its parentheses)", function=f.qualname)
